@@ -164,6 +164,21 @@ pub fn run<C: Ciphersuite, L: Lab<C>>(lab: &mut L, p: &Params) {
             no_panic!(lab, "compute_refreshing_shares with one identifier", compute_refreshing_shares::<C, _>(keys.1.clone(), &ids[..1], lab.rng()));
             let nomin = PublicKeyPackage::<C>::new(keys.1.verifying_shares().clone(), *keys.1.verifying_key(), None);
             no_panic!(lab, "compute_refreshing_shares without a recorded threshold", compute_refreshing_shares::<C, _>(nomin, &ids, lab.rng()));
+            // public key packages (public data, decodable from the wire) recording every boundary threshold
+            for min in [0u16, 1, p.n, p.n + 1, 65535] {
+                let pk = PublicKeyPackage::<C>::new(keys.1.verifying_shares().clone(), *keys.1.verifying_key(), Some(min));
+                for (idl, what) in [(&ids[..0], "no"), (&ids[..1], "one"), (&ids[..], "all")] {
+                    no_panic!(lab, &format!("compute_refreshing_shares, recorded threshold {min}, {what} identifiers"), compute_refreshing_shares::<C, _>(pk.clone(), idl, lab.rng()));
+                }
+                for m in [fc::CheaterDetection::Disabled, fc::CheaterDetection::FirstCheater] {
+                    no_panic!(lab, &format!("aggregate with a public key package recording threshold {min}"), fc::aggregate_custom(&sess.package, &sigshares, &pk, m));
+                }
+                no_panic!(lab, &format!("repair_share_part3 with a public key package recording threshold {min}"), repair_share_part3::<C>(&[], outsider, &pk));
+            }
+            for (mx, mn) in [(0u16, 0u16), (1, 1), (1, 2), (2, 0), (2, 1), (65535, 2)] {
+                no_panic!(lab, &format!("refresh_dkg_part1 with max_signers {mx}, min_signers {mn}"), refresh_dkg_part1::<C, _>(me, mx, mn, &mut *lab.rng()).map(|_| ()));
+                no_panic!(lab, &format!("dkg::part1 with max_signers {mx}, min_signers {mn}"), dkg::part1::<C, _>(me, mx, mn, &mut *lab.rng()).map(|_| ()));
+            }
             let sh = shares[&me].clone();
             let empty = SecretShare::<C>::new(me, *sh.signing_share(), VerifiableSecretSharingCommitment::new(vec![]));
             no_panic!(lab, "refresh_share with an empty commitment", refresh_share(empty, &keys.0[&me]));
